@@ -82,6 +82,10 @@ func ExploreSeq(sp *SeqSpec, deadline time.Time) *ExploreStats {
 					k = inst.Key()
 				}
 				inst.Close()
+				if sig == "!other" {
+					st.OtherObs++
+					continue
+				}
 				if sig != "" {
 					if !seenSig[sig] {
 						seenSig[sig] = true
